@@ -12,6 +12,8 @@ Streams:
            must be the label function of the RETURNED tables, and no returned NaN cell may be labelled stable.
            Every sc / hc dict of the class-level streams is passed with its keys in a random order and three clearly
            different tolerances (small / medium / large, assignment permuted), and judged by key.
+  B-boundary  every class variant with each tolerance exactly 0 in turn (int and float), one tolerance 1e9, and the
+           limits mpc_lim = 0, xi_max = 1, mpd_lim = 0.
 Oracle: the property text written in NumPy floats (independent of the model), run on every input of every stream.
 """
 import glob
@@ -585,6 +587,14 @@ def class_case(ctx, kind, data, fs, params, exprs, meta, label, store_data=False
                  % (site, int((Lab[rejected] != 0).sum()), i, o),
                  dict(case, **case_json(Fn, Xi, Phi), Lab=Lab.tolist(), data=data, cell=[i, o], expected=0, got=int(Lab[i, o]), reason="nan-pole"),
                  key="C10:%s:spurious-nan-pole" % site)
+    # a frequency or damping tolerance <= 0 admits no stable pole (|a-a'|/|a| is never negative, in floats either); the
+    # shape tolerance is left to the judged cells (1 - MAC can be -1e-16 by rounding)
+    if (tols[0] <= 0 or tols[1] <= 0) and Lab.shape == Fn.shape and Lab.sum() > 0:
+        i, o = [int(v) for v in np.argwhere(Lab != 0)[0]]
+        ctx.fail("oracle", "%s: %d poles labelled stable although err_fn = %r, err_xi = %r (no difference is below a tolerance <= 0)"
+                 % (site, int(Lab.sum()), sc["err_fn"], sc["err_xi"]),
+                 dict(case, **case_json(Fn, Xi, Phi), Lab=Lab.tolist(), data=data, cell=[i, o], expected=0, got=int(Lab[i, o]), reason="criteria"),
+                 key="C10:%s:spurious-criteria" % site)
     if not evaluate:
         return Lab
     order = (lambda o: o + 1) if is_p else (lambda o: o)
@@ -736,6 +746,51 @@ def bite_stream(ctx, exprs, meta):
                 ctx.hist("hc-bites", "%s: %s" % (crit, "none rejected" if n1 == n0 else ("all rejected" if n1 == 0 else "some rejected")))
 
 
+def boundary_stream(ctx, exprs, meta):
+    """Boundary values of the tolerances and limits, for every class variant, on one record per variant:
+    each tolerance exactly 0 in turn (int 0 and float 0.0: legal, and no pole can then be stable), one tolerance 1e9 (that test
+    always passes for a matched pair), and the hard-criteria limits mpc_lim = 0, xi_max = 1, mpd_lim = 0."""
+    rng, nrng = ctx.rng, ctx.np_rng
+    for rnd in range(ctx.n(1, 2)):
+        for vi, (kind, extra) in enumerate(bite_variants(ctx)):
+            is_p = kind.startswith("pLSCF")
+            extra = {k: v for k, v in extra.items() if k not in ("calc_unc", "nb")}
+            fs = rng.choice([20.0, 32.0])
+            l, N, nmodes = 3, rng.choice([1500, 2000]), rng.randint(2, 3)
+            ordmax = (5 if is_p else rng.randint(5, 6)) if ctx.quick() else (rng.randint(5, 7) if is_p else rng.randint(5, 10))
+            base = dict(extra, ordmax=ordmax)
+            if is_p:
+                base["nxseg"] = 128
+            else:
+                base["br"] = -(-ordmax // l) + rng.randint(2, 4)
+            if kind.endswith("_MS"):
+                nref, nsets = 2, 2
+                big = synth(np.random.default_rng(int(nrng.integers(1 << 30))), N, nref + nsets, fs, nmodes)
+                data = dict(ref_ind=[list(range(nref))] * nsets,
+                            datasets=[big[:, list(range(nref)) + [nref + k]] + 0.02 * nrng.standard_normal((N, nref + 1)) for k in range(nsets)])
+                if not is_p:
+                    base["br"] = max(base["br"], -(-ordmax // nref) + 2)
+            else:
+                data = synth(nrng, N, l, fs, nmodes)
+            hc = dict(conj=True, xi_max=0.3, mpc_lim=0.3, mpd_lim=0.8)
+            if not is_p:
+                hc["cov_max"] = 0.2
+            loose = dict(err_fn=0.05, err_xi=0.8, err_phi=0.2)
+            runs = []
+            for t, name in enumerate(("err_fn", "err_xi", "err_phi")):
+                zero = 0 if (vi + t + rnd) % 2 == 0 else 0.0
+                runs.append(("%s=%r" % (name, zero), dict(loose, **{name: zero}), hc))
+            big_name = ("err_fn", "err_xi", "err_phi")[(vi + rnd) % 3]
+            runs.append(("%s=1e9" % big_name, dict(loose, **{big_name: 1e9}), hc))
+            runs.append(("mpc_lim=0,xi_max=1", loose, dict(hc, mpc_lim=0 if vi % 2 else 0.0, xi_max=1 if vi % 2 == 0 else 1.0)))
+            runs.append(("mpd_lim=0", loose, dict(hc, mpd_lim=0 if vi % 2 == 0 else 0.0)))
+            for what, sc, hc_run in runs:
+                params = dict(base, ordmin=rng.choice([0, 1, 2]), sc=dict(sc), hc=dict(hc_run))
+                ctx.hist("stream", "B-boundary")
+                ctx.hist("boundary", what.split("=")[0] + "=" + what.split("=", 1)[1] if "," not in what else what)
+                class_case(ctx, kind, data, fs, params, exprs, meta, "boundary:%s round %d" % (what, rnd))
+
+
 # ---------------------------------------------------------------------------------------------------------------
 
 
@@ -764,6 +819,16 @@ def run(ctx):
         ctx.hist("stream", "corpus")
         if c["kind"] == "class":
             Lab = class_case(ctx, c["cls"], c["data"], c["fs"], c["params"], exprs, meta, "corpus:" + name, shuffle=False)
+            if Lab is not None and c.get("zero_tolerance_defaults") is not None:
+                # keep the case discriminating: with the zero tolerance replaced by the documented default some pole is stable
+                F, X, P = meta[-1][3], meta[-1][4], meta[-1][5]
+                pr = c["params"]
+                rngc = (max(pr.get("ordmin", 0) - 1, 0), pr["ordmax"] - 1) if c["cls"].startswith("pLSCF") else (pr.get("ordmin", 0), pr["ordmax"])
+                dflt = c["zero_tolerance_defaults"]
+                alt, _ = call_sc(gen, F.copy(), X.copy(), np.array(P), rngc[0], rngc[1],
+                                 tuple(float(pr["sc"][k]) or float(dflt[k]) for k in ("err_fn", "err_xi", "err_phi")))
+                if alt is None or alt.sum() == 0:
+                    ctx.note("corpus case %s: no pole is stable even with the zero tolerance replaced by its default" % name)
             if Lab is not None and c.get("mispairing_must_differ"):
                 # keep the case discriminating: the tolerances taken in the stored key ORDER give other labels than taken by KEY
                 F, X, P = meta[-1][3], meta[-1][4], meta[-1][5]
@@ -874,6 +939,9 @@ def run(ctx):
 
     # ---------------- stream B-hc: every hard criterion biting, one at a time, for every class variant
     bite_stream(ctx, exprs, meta)
+
+    # ---------------- stream B-boundary: tolerances exactly 0 / huge, limits at their boundary values, every class variant
+    boundary_stream(ctx, exprs, meta)
 
     # ---------------- model evaluation and comparison
     res = balanced_eval(ctx, exprs, ctx.n(24, 16))
